@@ -1,7 +1,8 @@
 /-
   Driver.C14 — line protocol for mean, variance, covariance, softmax and F1.
 
-    @ <fp|rat>                          new case, element type                    → ok
+    @ <fp|rat|trace|record>             new case, element type (trace / record: Trace<Fp> / Record<Fp>
+                                        elements, values written v~d, constants v)  → ok
     t/v/m/w …                           operand definitions, as in Driver.C03
     mean <values> via=…                 linear_algebra::mean                      → value=… | panic(explicit)
     variance <values> via=…             linear_algebra::variance                  → value=… | panic(explicit)
@@ -13,6 +14,7 @@
     f1 <precision> <recall>             f1_score                                  → value=…
 -/
 import EasyMl.Model.Stats
+import EasyMl.Model.DualElem
 import Driver.C03
 
 namespace Driver.C14
@@ -53,28 +55,57 @@ def stepStats (e : Env α) (toks : List String) : Env α × String :=
 
 end Generic
 
-abbrev State := Driver.C03.State
+/-- `Trace<Fp>` / `Record<Fp>` as element types: forward-mode dual numbers over the prime field
+    (`Model/DualElem.lean`).  On the wire `v~d` is a value with derivative part `d` (a `Trace`, or a
+    `Record` variable whose seed is `d`), a bare `v` a constant (`Trace::constant` /
+    `Record::constant`); answers carry value and (directional) derivative as `v~d`. -/
+instance : NatCast (Dual Fp) := ⟨fun n => Dual.constant (n : Fp)⟩
 
-def init : State := .none
+instance : Elem (Dual Fp) where
+  parse s :=
+    match s.splitOn "~" with
+    | [v] => v.toNat?.map fun x => Dual.constant (Fp.ofNat x)
+    | [v, d] =>
+      match v.toNat?, d.toNat? with
+      | some x, some y => some ⟨Fp.ofNat x, Fp.ofNat y⟩
+      | _, _ => none
+    | _ => none
+  render a := s!"{a.number.val}~{a.derivative.val}"
+
+inductive State where
+  | base (s : Driver.C03.State)
+  | dual (e : Env (Dual Fp))
+
+def init : State := .base .none
 
 def step (s : State) (toks : List String) : State × String :=
   match toks with
-  | ["@", "fp"] => (.fp {}, "ok")
-  | ["@", "rat"] => (.rat {}, "ok")
+  | ["@", "fp"] => (.base (.fp {}), "ok")
+  | ["@", "rat"] => (.base (.rat {}), "ok")
+  -- automatic-differentiation element types: the same generic model at dual numbers
+  | ["@", "trace"] => (.dual {}, "ok")
+  | ["@", "record"] => (.dual {}, "ok")
   | "softmax_f64" :: valsS :: _ =>
     -- f64 sanity oracle of the harness (finite, non-negative, sums to one): floats are never
     -- compared with the model, which only knows the length (theorem `softmax_length`)
     (s, s!"sane len={(splitComma valsS).length}")
   | _ =>
     match s with
-    | .fp e =>
+    | .base (.fp e) =>
       match toks with
       | "softmax" :: valsS :: _ =>
         match (parseVals valsS : Option (List Fp)) with
         | some vals => (s, s!"data={showVals (softmax vals)}")
         | none => (s, "bad-op")
-      | _ => let (e', a) := stepStats e toks; (.fp e', a)
-    | .rat e => let (e', a) := stepStats e toks; (.rat e', a)
+      | _ => let (e', a) := stepStats e toks; (.base (.fp e'), a)
+    | .base (.rat e) => let (e', a) := stepStats e toks; (.base (.rat e'), a)
+    | .dual e =>
+      match toks with
+      | "softmax" :: valsS :: _ =>
+        match (parseVals valsS : Option (List (Dual Fp))) with
+        | some vals => (s, s!"data={showVals (softmax vals)}")
+        | none => (s, "bad-op")
+      | _ => let (e', a) := stepStats e toks; (.dual e', a)
     | _ => (s, "no-case")
 
 end Driver.C14
